@@ -88,13 +88,34 @@ def replay_cppgen_case(case):
                 if d.get('ck') == 'comment':
                     return cpp.Comment(lines)
                 return TextBlock(lines)
-            nsp = cpp.Namespace(scoping.ns_ids_t(list(d['ids'])), contents=contents())
+            kls = cpp.Struct if d['kw'] == 'struct' else cpp.Class
+            if d.get('ck') in ('later', 'set'):
+                # sibling blocks created without contents and filled in place with other text, before and after
+                sib_ns, sib_st = cpp.Namespace(scoping.ns_ids_t(['Sib'])), kls('Sib')
+                sib_ns.contents.append('int z;')
+                sib_st.contents.append('int z;')
+                nsp, stc = cpp.Namespace(scoping.ns_ids_t(list(d['ids']))), kls('S')
+                if d['ck'] == 'later':
+                    nsp.contents.append(lines)
+                    stc.contents += lines
+                else:
+                    nsp.contents = TextBlock(lines)
+                    stc.contents = TextBlock(lines)
+                sib2_ns, sib2_st = cpp.Namespace(scoping.ns_ids_t(['Sib2'])), kls('Sib2')
+                sib2_ns.contents.append('int w;')
+                sib2_st.contents.append('int w;')
+                for sib in (sib_ns, sib_st):
+                    body = [ln.strip() for ln in str(sib).split('\n')]
+                    if 'int z;' not in body or any(x in body for x in ('int w;', 'int x;', 'int y;')):
+                        bad.append(('sibling block keeps its own contents', 'int z; only', str(sib)))
+            else:
+                nsp = cpp.Namespace(scoping.ns_ids_t(list(d['ids'])), contents=contents())
+                stc = kls('S', contents())
             got = tokenize(str(nsp))
             if got != case['ns']:
                 bad.append(('namespace block', case['ns'], got))
             if str(nsp).count('{') != str(nsp).count('}'):
                 bad.append(('balanced braces', True, False))
-            stc = (cpp.Struct if d['kw'] == 'struct' else cpp.Class)('S', contents())
             got = tokenize(str(stc))
             if got != case['st']:
                 bad.append((f'{d["kw"]} block', case['st'], got))
